@@ -51,7 +51,7 @@ let () =
       if mode = "spec" then begin
         if i (exn_nesting p) > i exn_max then print_endline "OUTOFSCOPE"
         else
-          let (evs, r) = exn_ref O p in
+          let ((evs, r), _) = exn_ref O O p in
           print_endline (line_of evs (match r with
             | RNormal -> "N@0"
             | RRaised (k, m) -> Printf.sprintf "D%d,%d" (i (exn_kind_of k)) (i m)))
